@@ -51,8 +51,10 @@ def run : Handler := fun req => do
         if (fieldD f "skel_equal" (Json.bool true)) != Json.bool true then
           return verdict false [] s!"payload at {pos} changes code outside literals/docs in {sOf f "file"}: {(fieldD f "first_diff" Json.null).compress.take 300}"
     -- format-string positions: a literal used as a format string must print itself
-    let badFmt := fmtLits.filter fun l => isInfixS payload l && fmtRender l.toList != some (escapeBraces l.toList |> fun _ => l.toList) && fmtRender l.toList != some l.toList
-    let badFmt := badFmt.filter fun l => fmtRender l.toList != some l.toList
+    -- (the literal carries the payload raw or brace-escaped; what it PRINTS must contain the payload)
+    let escaped := String.ofList (escapeBraces payload.toList)
+    let badFmt := fmtLits.filter fun l => (isInfixS payload l || isInfixS escaped l) &&
+      (match fmtRender l.toList with | some x => !isInfixS payload (String.ofList x) | none => true)
     if !badFmt.isEmpty then
       return verdict false ["KnownDisplayFormatString"] s!"spec text is used as a FORMAT STRING and is not brace-safe: {badFmt.take 2}"
     -- recoverable: byte-for-byte in a string literal, or (doc carrier) modulo the documented line normalisation
